@@ -161,6 +161,86 @@ func validate(specs []*it, res string, names []*it) string {
 	return ""
 }
 
+// regionClass: "duplicated-providers-general" for item sets in the decidable class of the known finding D8,
+// "resolve-order" otherwise
+func regionClass(specs []*it) string {
+	class := "resolve-order"
+	// decidable class of the known finding D8: some entity has two or more providers and the set is not the
+	// simple base+refiner shape (every such entity has exactly two providers, exactly one of which also
+	// requires it, and no item takes part in two such pairs) - the shape of the built-in items
+	multi := map[string][]*it{}
+	for _, sp := range specs {
+		for _, e := range sp.provides {
+			multi[e] = append(multi[e], sp)
+		}
+	}
+	// BFS distance from the roots (items without requirements) in the item/entity graph, as BreadthSort sees it
+	dist := map[*it]int{}
+	edist := map[string]int{}
+	for changed, round := true, 0; changed && round < 64; round++ {
+		changed = false
+		for _, sp := range specs {
+			d := 1 << 20
+			if len(sp.requires) == 0 {
+				d = 0
+			}
+			for _, r := range sp.requires {
+				if ed, ok := edist[r]; ok && ed+1 < d {
+					d = ed + 1
+				}
+			}
+			if old, ok := dist[sp]; d < 1<<20 && (!ok || d < old) {
+				dist[sp] = d
+				changed = true
+			}
+			if dd, ok := dist[sp]; ok {
+				for _, e := range sp.provides {
+					if old, ok2 := edist[e]; !ok2 || dd+1 < old {
+						edist[e] = dd + 1
+						changed = true
+					}
+				}
+			}
+		}
+	}
+	involved := map[*it]int{}
+	for e, ps := range multi {
+		if len(ps) < 2 {
+			continue
+		}
+		refiners := 0
+		var base, refiner *it
+		for _, q := range ps {
+			involved[q]++
+			isRef := false
+			for _, r := range q.requires {
+				if r == e {
+					isRef = true
+				}
+			}
+			if isRef {
+				refiners++
+				refiner = q
+			} else {
+				base = q
+			}
+		}
+		if !(len(ps) == 2 && refiners == 1) {
+			class = "duplicated-providers-general"
+		} else {
+			// the chaining picks the provider that comes later in breadth-first order as the refiner: only
+			// when the base provider is strictly closer to the roots is that choice the right one (built-in
+			// pairs TreeDiff/RenameAnalysis and FileDiff/FileDiffRefiner have this shape)
+			db, okb := dist[base]
+			dr, okr := dist[refiner]
+			if !okb || !okr || db >= dr {
+				class = "duplicated-providers-general"
+			}
+		}
+	}
+	return class
+}
+
 func main() {
 	seed, count, wo, wi, _, done := hv.Args()
 	defer done()
@@ -295,87 +375,50 @@ func main() {
 			parts = append(parts, fmt.Sprintf("%d:%s:%s", id[node[s]], strings.Join(ps, ","), strings.Join(rs, ",")))
 		}
 		res, names := run(specs)
+		lastClass := regionClass(specs)
 		if what := validate(specs, res, names); what != "" {
 			var d []map[string]interface{}
 			for _, sp := range specs {
 				d = append(d, map[string]interface{}{"name": sp.name, "provides": sp.provides, "requires": sp.requires})
 			}
 			js, _ := json.Marshal(map[string]interface{}{"items": d})
-			class := "resolve-order"
-			// decidable class of the known finding D8: some entity has two or more providers and the set is not the
-			// simple base+refiner shape (every such entity has exactly two providers, exactly one of which also
-			// requires it, and no item takes part in two such pairs) - the shape of the built-in items
-			multi := map[string][]*it{}
-			for _, sp := range specs {
-				for _, e := range sp.provides {
-					multi[e] = append(multi[e], sp)
-				}
-			}
-			// BFS distance from the roots (items without requirements) in the item/entity graph, as BreadthSort sees it
-			dist := map[*it]int{}
-			edist := map[string]int{}
-			for changed, round := true, 0; changed && round < 64; round++ {
-				changed = false
-				for _, sp := range specs {
-					d := 1 << 20
-					if len(sp.requires) == 0 {
-						d = 0
-					}
-					for _, r := range sp.requires {
-						if ed, ok := edist[r]; ok && ed+1 < d {
-							d = ed + 1
-						}
-					}
-					if old, ok := dist[sp]; d < 1<<20 && (!ok || d < old) {
-						dist[sp] = d
-						changed = true
-					}
-					if dd, ok := dist[sp]; ok {
-						for _, e := range sp.provides {
-							if old, ok2 := edist[e]; !ok2 || dd+1 < old {
-								edist[e] = dd + 1
-								changed = true
-							}
-						}
-					}
-				}
-			}
-			involved := map[*it]int{}
-			for e, ps := range multi {
-				if len(ps) < 2 {
-					continue
-				}
-				refiners := 0
-				var base, refiner *it
-				for _, q := range ps {
-					involved[q]++
-					isRef := false
-					for _, r := range q.requires {
-						if r == e {
-							isRef = true
-						}
-					}
-					if isRef {
-						refiners++
-						refiner = q
-					} else {
-						base = q
-					}
-				}
-				if !(len(ps) == 2 && refiners == 1) {
-					class = "duplicated-providers-general"
-				} else {
-					// the chaining picks the provider that comes later in breadth-first order as the refiner: only
-					// when the base provider is strictly closer to the roots is that choice the right one (built-in
-					// pairs TreeDiff/RenameAnalysis and FileDiff/FileDiffRefiner have this shape)
-					db, okb := dist[base]
-					dr, okr := dist[refiner]
-					if !okb || !okr || db >= dr {
-						class = "duplicated-providers-general"
-					}
-				}
-			}
+			class := lastClass
 			hv.Fail(class, string(js), what)
+		}
+		// every order the real Initialize returns (outside the known-finding class) also goes through the Lean
+		// checker Ord.orderValid, about which `orderValid_sound` is proved
+		if res == "ok" && lastClass != "duplicated-providers-general" {
+			entID := map[string]int{}
+			for i, e := range ents {
+				entID[e] = i
+			}
+			lst := func(es []string) string {
+				if len(es) == 0 {
+					return "-"
+				}
+				var x []string
+				for _, e := range es {
+					x = append(x, strconv.Itoa(entID[e]))
+				}
+				return strings.Join(x, ",")
+			}
+			var its []string
+			posOf := map[*it]int{}
+			for i, sp := range specs {
+				its = append(its, lst(sp.provides)+":"+lst(sp.requires))
+				posOf[sp] = i
+			}
+			var ord []string
+			for _, x := range names {
+				ord = append(ord, strconv.Itoa(posOf[x]))
+			}
+			fmt.Fprintf(wo, "ord %s %s\n", strings.Join(its, ";"), strings.Join(ord, ","))
+			if validate(specs, res, names) == "" {
+				fmt.Fprintln(wi, "ok")
+			} else {
+				fmt.Fprintln(wi, "bad")
+			}
+			stats["orders-validated"]++
 		}
 		if amb {
 			// information only: is the real result stable over map orders?
